@@ -118,6 +118,19 @@ pub fn run_case(ctx: &Ctx, case: &Case) -> Outcome {
                 break 'ops;
             }
         }
+        // the `s3` strategy never retries and never looks at the result of a PUT: whatever the fault plan, a PUT that
+        // failed during this step and was not reported is the violation; what follows from it (start-up panic, database
+        // gone, keys object of one snapshot read against the values object of another, a garbage length that makes the
+        // loader allocate petabytes) is the same root cause and is not chased
+        if strat == "s3" && put_failed_now && !(panicked || logged) {
+            let sig = format!("C18|{}|failed-upload-not-reported", strat);
+            if ctx.is_known(&sig) {
+                *known_hits.entry(sig).or_insert(0) += 1;
+            } else {
+                fail = Some((sig, format!("step {} {:?}: {} PUT(s) failed, none was retried and the snapshot returned normally without an error log", i, op, stub.failed_puts.load(Ordering::SeqCst) - failed_puts_before)));
+            }
+            break 'ops;
+        }
         if let Fault::GetFailsOnce { .. } = case.fault {
             if get_failed_now && panicked {
                 reported = true;
